@@ -702,6 +702,8 @@ def run(prog: Program, rep: Report, tier: str) -> None:
     from ..share import share
 
     share(prog, rep, "C06", ("R06.6",), "R14.8", "the row of a particle does not depend on deaths of other particles: compactification only under the sparse layout", 1, only=lambda o: "compactif" in o.construct or "call site" in o.construct)
+    share(prog, rep, "C05", ("R05.2",), "R14.9", "a new particle's identifier does not depend on which other particles have died", 2, only=lambda o: "identifier" in o.construct or "npid" in o.construct or "counter" in o.construct)
+    share(prog, rep, "C13", ("R13.7",), "R14.10", "shifting the set-up by whole steps shifts every instant by the same amount: no instant is truncated to a coarser unit", 4)
 
 
 
